@@ -43,6 +43,9 @@ def run(ctx):
         for j, dk in enumerate(keys):
             if thorough or (i + j) % 4 == 0 or ml in (0, 32):
                 cases.append({"kind": "enc", "d": dk, "mf": 0 if (i + j) % 5 else 2, "mlen": ml, "ks": [hex(rnd.randrange(1, N))[2:]]})
+    # nonces k for which C1 = [k]G has a short x or y coordinate (the same small scalars TLC found): fixed-width fields
+    for d, xl, yl in special[:6]:
+        cases.append({"kind": "enc", "d": keys[3], "mf": 0, "mlen": 20, "ks": [hex(d)[2:]], "note": "C1 with x of %d and y of %d bytes" % (xl, yl)})
     # a nonce whose first KDF byte is zero: a 1-byte plaintext must be encrypted under the NEXT nonce
     zk = None
     frows = tlc_table(ctx, [{"kind": "findk", "d": STD_D, "k": k} for k in range(2, 1400)], "findk")
